@@ -207,6 +207,12 @@ func dumpRegistry() []InitEnt {
 	return out
 }
 
+// the registry as documented (styles.go), for worlds that must not consult it
+// before their first registration
+func assumedInit() []InitEnt {
+	return []InitEnt{{"ascii-simple", 1}, {"none", 2}, {"utf8-double", 6}, {"utf8-heavy", 5}, {"utf8-light", 3}, {"utf8-light-curved", 4}}
+}
+
 // ---- name table for Coq terms: each distinct byte string is bound once
 
 type nameTable struct {
